@@ -94,7 +94,7 @@ def main():
             dst = os.path.join('/verif/seeded', sid)
             os.makedirs(dst, exist_ok=True)
             for f in files:
-                if f in ('go.mod', 'go.sum'):
+                if f in ('go.mod', 'go.sum') or os.path.isdir(os.path.join(src, f)):
                     continue
                 shutil.copy(os.path.join(src, f), os.path.join(dst, f if not f.endswith('_test.go') else f + '.txt'))
             meta = dict(id=sid, property=prop, source='independent sub-agent given only the property text and a scratch worktree',
